@@ -271,7 +271,9 @@ class PolarsSetDefault(Contract):
     target = f"{DFP}.set_default"
     check_frame = False
     raises = ()
-    split = {"layout": [0, 1, 2, 3]}
+    # regex_k1: the second declared column is a PATTERN (its key is never a column of the frame; its selector resolves the matches): its
+    # default is filled like any other - the column-level fill of a regex component works on a private copy that validate discards
+    split = {"layout": [0, 1, 2, 3], "regex_k1": [False, True]}
 
     def setup(self, I):
         import pandera.api.polars.utils as PU
@@ -289,7 +291,7 @@ class PolarsSetDefault(Contract):
                 p = cur()
                 k = col_schema.attrs["name"]
                 p.ghost.setdefault("filled", []).append((k, check_obj))
-                if k not in check_obj.cols:
+                if k not in check_obj.cols and not col_schema.attrs["regex"]:
                     raise PyExc(I.make_exc(OtherException))  # polars ColumnNotFoundError when the plan is resolved
                 r = TypedFrame(check_obj.cols, f"set_default[{k}]")
                 p.ghost["current"] = r
@@ -308,14 +310,15 @@ class PolarsSetDefault(Contract):
 
             c = Obj(Column, f"column_{k}", pre=True, fields={})
             default = T.fresh_value(T.Opt(T.Any), f"default[{k}]")
-            c.attrs.update(default=default, name=k, selector=k, regex=False, required=T.fresh_value(T.Bool, f"required[{k}]"))
+            is_regex = k == DECLARED[1] and self.fixed.get("regex_k1", False)
+            c.attrs.update(default=default, name=k, selector=k, regex=is_regex, required=T.fresh_value(T.Bool, f"required[{k}]"))
             c.attrs0.update(c.attrs)
             dict.__setitem__(cols, k, c)
-            meta[k] = (default, here)
+            meta[k] = (default, here or is_regex)  # (a pattern is "present" through whatever it matches: resolved by its selector)
         schema = Obj(None, "schema", pre=True, fields={})
         schema.attrs["columns"] = cols
         schema.attrs0["columns"] = cols
-        frame = TypedFrame({k: ("frame-type-of", k) for k, here in zip(DECLARED, present) if here})
+        frame = TypedFrame({k: ("frame-type-of", k) for k, here in zip(DECLARED, present) if here and not (k == DECLARED[1] and self.fixed.get("regex_k1", False))})
         cur().ghost.update(meta=meta, frame=frame)
         core.register_model_var("layout", lambda m, pr=present: f"k0 present={pr[0]}, k1 present={pr[1]}")
         return {"self": T.Ref(B).fresh("self"), "check_obj": frame, "schema": schema}
@@ -360,7 +363,19 @@ class PolarsSetDefault(Contract):
                 if got != expect:
                     bad = True
                     obs[name] = f"{got} (pandas twin / documented: {expect})"
-            return bad, obs or "absent columns with a default are left to the presence check"
+            # a PATTERN with a default: the matched columns are filled in the frame that validate returns
+            regex_schema = pp.DataFrameSchema({r"^x_\d$": pp.Column(int, regex=True, default=0)})
+            for mk in (pl.DataFrame, pl.LazyFrame):
+                try:
+                    out = regex_schema.validate(mk({"x_1": [1, None], "x_2": [None, 2]}))
+                    out = out.collect() if isinstance(out, pl.LazyFrame) else out
+                    got = {c: out[c].to_list() for c in out.columns}
+                except Exception as e:  # noqa: BLE001
+                    got = f"raised {type(e).__name__}"
+                if got != {"x_1": [1, 0], "x_2": [0, 2]}:
+                    bad = True
+                    obs[f"regex column ^x_\\d$ with default=0 on {mk.__name__} x_1=[1,None], x_2=[None,2]: returned"] = f"{got}, expected the nulls filled with 0"
+            return bad, obs or "absent columns with a default are left to the presence check; a pattern's matches are filled"
 
         return thunk
 
